@@ -1035,6 +1035,19 @@ def slice_to_ascending_slice(
     if key.step is None or key.step > 0:
         return key
 
+    # normalize negative bounds against size: the arithmetic below assumes positions counted from the start
+    key_start, key_stop = key.start, key.stop
+    if key_start is not None and key_start < 0:
+        key_start += size
+        if key_start < 0: # starts before the first position: nothing is selected
+            return slice(0, 0, None)
+    if key_stop is not None and key_stop < 0:
+        key_stop += size
+        if key_stop < 0: # stops before the first position: same as no stop
+            key_stop = None
+    if key_start is not key.start or key_stop is not key.stop:
+        key = slice(key_start, key_stop, key.step)
+
     stop = key.start if key.start is None else key.start + 1
 
     if key.step == -1:
